@@ -81,6 +81,26 @@ CHECKS = {
              "positions on one common scale.  Compile-fail witnesses cover the non-affine forms named in the statement.",
         design_ref="3.9", technique="cell analysis / affine forms / ordering truth tables over LLVM IR against an (m, o) model + compile-fail witnesses",
         note=TRUST_I + "; " + TRUST_W, engine="I+W"),
+    "C07": dict(
+        category="exploration",
+        text="One generated program per seeded list of 2-4 same-dimension units (library units, named and anonymous scaled units with "
+             "numerators / denominators below 2^40, pi and root factors): every input/common ratio is an integer, the common unit's magnitude "
+             "read out of the type equals the model's gcd magnitude (base-wise minimum exponent = 'largest'), the type is identical under every "
+             "permutation and repetition, an input that already is the gcd unit is the result, nesting is quantity-equivalent, irrational lists "
+             "still have a symmetric result, std::common_type of quantities is Quantity<CommonUnitT, common rep> in both orders.  Lists with two "
+             "distinct named units of identical magnitude are excluded as documented.  400 lists quick, 3000 thorough, both compilers.",
+        design_ref="3.7", technique="static_assert witness programs with type read-out against an exact gcd-magnitude model",
+        note=TRUST_W, engine="W"),
+    "C10": dict(
+        category="exploration",
+        text="Seeded pairs and triples of point units (Kelvins / Celsius / Fahrenheit and prefixed forms read out of the tree, generated units "
+             "with rational size and rational origin, positive / zero / negative, expressed in another unit): size and origin of "
+             "CommonPointUnitT are read out of the type by constant extraction; for every input the model decides exactly that size ratio is a "
+             "positive integer and the offset a non-negative integer; static_asserts tie the read-out to the library's own conversion and "
+             "origin_displacement, and assert identity under every permutation / repetition and that an input with the common size and origin "
+             "is the result.  Maximality is not demanded (the statement does not).",
+        design_ref="3.10", technique="constant extraction from clang IR + exact rational model + static_assert witness programs",
+        note=TRUST_W, engine="W"),
     "C13": dict(
         category="proof",
         text="(S) AST shape rule on the primary templates au::Quantity / au::QuantityPoint - exactly one non-static data "
